@@ -242,6 +242,15 @@ func init() {
 		}
 		return nil
 	}
+	externals[rt+"ForceAssign"] = func(fr *frame, args []value) value {
+		dst, _ := args[0].(iface)
+		p, _ := dst.v.(*value)
+		if p == nil {
+			panic(engineAbort{"unsupported: ForceAssign to a nil pointer"})
+		}
+		*p = args[1]
+		return nil
+	}
 	externals[rt+"CrashNow"] = func(fr *frame, args []value) value {
 		if fr.i.crashArmed {
 			panic(crashUnwind{})
